@@ -601,8 +601,45 @@ def _bc(m, ref):
     return m
 
 
+def state_scale(st):
+    """largest magnitude of any finite entry of a state"""
+    m = 0.0
+    for v in st.values():
+        if isinstance(v, float):
+            vals = [v]
+        elif len(v) > 0 and isinstance(v[0], list):
+            vals = [x for b in v for x in b]
+        else:
+            vals = v
+        for x in vals:
+            if np.isfinite(x):
+                m = max(m, abs(x))
+    return m
+
+
+def _vec_close(x, y, rtol, scale):
+    x = np.asarray(x, dtype=np.float64).ravel()
+    y = np.asarray(y, dtype=np.float64).ravel()
+    if x.shape != y.shape:
+        return False
+    for a, b in zip(x.tolist(), y.tolist()):
+        if np.isnan(a) or np.isnan(b):
+            if not (np.isnan(a) and np.isnan(b)):
+                return False
+        elif np.isinf(a) or np.isinf(b):
+            if a != b:
+                return False
+        elif abs(a - b) > rtol * max(1, x.size) * (1.0 + scale):
+            return False
+    return True
+
+
 def states_close(a, b, rtol=1e-9, skip=()):
-    """field-wise comparison; returns the name of the first differing field or None"""
+    """field-wise comparison; returns the name of the first differing field or None.  The absolute tolerance
+    is rtol * n * (1 + S) with S the largest magnitude in the two states (entries of a state are computed from
+    each other, so cancellation errors scale with S, not with the individual entry)."""
+    scale = max(state_scale({k: v for k, v in a.items() if k not in skip}),
+                state_scale({k: v for k, v in b.items() if k not in skip and k in a}))
     for k in a:
         if k in skip:
             continue
@@ -610,16 +647,16 @@ def states_close(a, b, rtol=1e-9, skip=()):
         if vb is None:
             return k
         if isinstance(va, float):
-            if not common.close(va, vb, 8, rtol):
+            if not _vec_close([va], [vb], rtol * 8, scale):
                 return k
         elif len(va) > 0 and isinstance(va[0], list):
             if len(va) != len(vb):
                 return k
             for x, y in zip(va, vb):
-                if not common.allclose(x, _bc(y, x), rtol=rtol):
+                if not _vec_close(x, _bc(y, x), rtol, scale):
                     return k
         else:
-            if not common.allclose(va, _bc(vb, va), rtol=rtol):
+            if not _vec_close(va, _bc(vb, va), rtol, scale):
                 return k
     return None
 
